@@ -24,11 +24,18 @@ type Def struct {
 // execution strategy (C01) cannot hold if replaying a cached log differs from executing (C09), if squashing differs from
 // sequential execution (C02), if results depend on which cache files exist (C07) or if index filtering changes results (C15).
 var Includes = map[string][]string{
-	"C01": {"C02", "C07", "C09", "C15"},
+	// (C03: in development mode the payloads after a reorg are those of the final chain only if every undone block's
+	// store writes were reverted, whether or not the output gate was open yet)
+	"C01": {"C02", "C03", "C07", "C09", "C15"},
 	// the partials that are merged are "each saved to and reloaded from its snapshot file" (statement of C02): the merge
 	// equals sequential execution only if the snapshot round-trips (C10)
 	"C02": {"C10"},
 	"C03": {"C11"},
+	// the size is exact after a reload only if Load restores it on every path (C10.R2)
+	"C11": {"C10"},
+	// "staging terminates" for every graph validation lets through: cycles refused, every reference an edge of the graph
+	// tested for cycles, every reference resolved — decided under C17.R3
+	"C14": {"C17"},
 	// the blocks delivered before the hand-off are read from cached output files: they are what was computed only if a
 	// missing or half-written file is never taken for a complete one (C07)
 	"C04": {"C12", "C07"},
